@@ -3,6 +3,7 @@ package mv
 import (
 	"bytes"
 	"fmt"
+	"hash/fnv"
 	"sort"
 	"sync"
 	"sync/atomic"
@@ -183,13 +184,13 @@ func applyHigher(higher moss.Snapshot, prev *Node, offer *bytes.Buffer, path str
 		}
 		switch ex.Operation {
 		case moss.OperationSet:
-			fmt.Fprintf(offer, "%sS(%q,%q);", path, k, v)
+			fmt.Fprintf(offer, "%sS(%s,%s);", path, offerq(k), offerq(v))
 			out.KV[string(k)] = append([]byte{}, v...)
 		case moss.OperationDel:
-			fmt.Fprintf(offer, "%sD(%q);", path, k)
+			fmt.Fprintf(offer, "%sD(%s);", path, offerq(k))
 			delete(out.KV, string(k))
 		case moss.OperationMerge:
-			fmt.Fprintf(offer, "%sM(%q,%q);", path, k, v)
+			fmt.Fprintf(offer, "%sM(%s,%s);", path, offerq(k), offerq(v))
 			mv, err := higher.Get(k, moss.ReadOptions{})
 			if err != nil {
 				it.Close()
@@ -278,4 +279,14 @@ func (e *Env) llUpdate(higher moss.Snapshot) (moss.Snapshot, error) {
 		e.llGate.Enter("ll")
 	}
 	return e.LL.Update(higher)
+}
+
+// offerq renders a byte string exactly when short, by length and hash when long.
+func offerq(b []byte) string {
+	if len(b) <= 64 {
+		return fmt.Sprintf("%q", b)
+	}
+	h := fnv.New64a()
+	h.Write(b)
+	return fmt.Sprintf("[%d bytes #%x]", len(b), h.Sum64())
 }
